@@ -220,9 +220,11 @@ def impl(c):
         if op == "decode":
             try:
                 d = bnp.open(p).read()
-                return {"enc": bhash(body), "recs": _rows(d)}
+                info = d.get_context("header").info if len(c["recs"]) else [tuple(x) for x in c["refs"]]
+                return {"enc": bhash(body), "hdr": bhash(encode_header(c["refs"], bytes(c["text"]))),
+                        "refs": [[str(n), int(l)] for n, l in info], "recs": _rows(d)}
             except Exception as e:
-                return dict(_err(e), enc=bhash(body))
+                return dict(_err(e), enc=bhash(body), hdr=bhash(encode_header(c["refs"], bytes(c["text"]))))
         if op == "chunked":
             try:
                 chunks = []
@@ -260,8 +262,8 @@ def impl(c):
                 rawz = open(out, "rb").read()
                 raw = gzip.decompress(rawz)
                 text, refs, recs, hdr_end = decode_file_bytes(raw)
-                return {"eof": rawz.endswith(EOF_BLOCK), "text": list(text), "refs": refs, "recs": [_full(r) for r in recs],
-                        "body": bhash(raw[hdr_end:])}
+                return {"eof": rawz.endswith(EOF_BLOCK) and gzip.decompress(EOF_BLOCK) == b"", "text": list(text), "refs": refs,
+                        "recs": [_full(r) for r in recs], "body": bhash(raw[hdr_end:]), "file": bhash(raw)}
             except Exception as e:
                 return _err(e)
     finally:
@@ -289,7 +291,8 @@ def oracle(c):
     refs, recs = c["refs"], c["recs"]
     body = b"".join(encode_record(r) for r in recs)
     if op == "decode":
-        return {"enc": bhash(body), "recs": [view(refs, r) for r in recs]}
+        return {"enc": bhash(body), "hdr": bhash(encode_header(refs, bytes(c["text"]))), "refs": [[n, l] for n, l in refs],
+                "recs": [view(refs, r) for r in recs]}
     if op == "chunked":
         if c["k"] < max_rec(c) or c["k"] < 1:
             return SKIP
@@ -319,7 +322,7 @@ def agree(c, got, exp):
 
 def agree_model(c, got, m):
     if c["op"] == "write" and isinstance(got, dict) and "body" in got:
-        return core.canon(got["body"]) == core.canon(m.get("body"))
+        return all(core.canon(got[k]) == core.canon(m.get(k)) for k in ("body", "file", "eof"))
     return core.canon(got) == core.canon(m)
 
 
@@ -331,11 +334,13 @@ def _jrec(r):
 
 
 def model_request(c):
-    q = {"op": c["op"], "names": [list(n.encode("latin-1")) for n, _ in c["refs"]], "recs": [_jrec(r) for r in c["recs"]]}
+    q = {"op": c["op"], "names": [list(n.encode("latin-1")) for n, _ in c["refs"]], "lens": [l for _, l in c["refs"]],
+         "text": list(c["text"]), "recs": [_jrec(r) for r in c["recs"]]}
     if "k" in c:
         q["k"] = c["k"]
     if c["op"] == "write":
         q["idx"] = _sel(c)
+        q["mode"] = c["mode"]
     return q
 
 
@@ -392,11 +397,38 @@ def finding_key(c, got, exp):
 NAMECH = [chr(x) for x in range(33, 127) if chr(x) != "@"]
 
 
+def rand_tags(rng):
+    """valid BAM auxiliary fields: A, c/C/s/S/i/I, f, Z (NUL-terminated), H, B arrays; NUL bytes occur naturally"""
+    out = b""
+    for _ in range(rng.choice([1, 1, 2, 3])):
+        tag = (rng.choice("NXMYRBCZ") + rng.choice("MGSZ019")).encode()
+        t = rng.choice("AcCsSiIfZHB")
+        if t == "A":
+            v = bytes([rng.randrange(33, 127)])
+        elif t in "cCsSiI":
+            v = struct.pack("<" + {"c": "b", "C": "B", "s": "h", "S": "H", "i": "i", "I": "I"}[t],
+                            rng.choice([0, 1, 10, 127]) if t in "cC" else rng.choice([0, 1, 256, 32767]))
+        elif t == "f":
+            v = struct.pack("<f", rng.choice([0.0, -1.5, 1e-3, 3.25]))
+        elif t == "Z":
+            v = "".join(rng.choice("ACGT:;=\t 09az*") for _ in range(rng.choice([0, 1, 5, 20]))).encode() + b"\0"
+        elif t == "H":
+            v = "".join(rng.choice("0123456789ABCDEF") for _ in range(2 * rng.choice([0, 1, 4]))).encode() + b"\0"
+        else:
+            sub = rng.choice("cCsSiIf")
+            n = rng.choice([0, 1, 3, 10])
+            fmt = {"c": "b", "C": "B", "s": "h", "S": "H", "i": "i", "I": "I", "f": "f"}[sub]
+            vals = [rng.choice([0, 1, 10, 100]) for _ in range(n)]
+            v = sub.encode() + struct.pack("<I", n) + struct.pack("<" + fmt * n, *[float(x) if sub == "f" else x for x in vals])
+        out += tag + t.encode() + v
+    return list(out)
+
+
 def rand_rec(rng, nref, giant=None):
     ref = -1 if (nref == 0 or rng.random() < 0.2) else rng.randrange(nref)
     nl = rng.choice([1, 1, 2, 3, 5, 8, 13, 254, rng.randrange(1, 41), rng.randrange(1, 255)])
     name = "".join(rng.choice(NAMECH) for _ in range(nl))
-    ncig = rng.choice([0, 1, 1, 2, 3, 5, rng.randrange(0, 13)])
+    ncig = rng.choice([0, 1, 1, 2, 3, 5, rng.randrange(0, 13), rng.randrange(0, 13), rng.randrange(60, 300)])
     if giant == "cigar":
         ncig = rng.choice([16383, 16384, 16385, 20000, 32768, 40000, 65535])
     big = [1, 1, 2, 3, 7, 100, 65535, 65536, (1 << 28) - 1]
@@ -414,12 +446,12 @@ def rand_rec(rng, nref, giant=None):
                 cigar = [[o, min(n, 300)] for o, n in cigar]
         else:
             cigar[i][1] = rng.randrange(1, 300)
-    ls = rng.choice([0, 0, 1, 2, 3, 4, 5, 7, 8, rng.randrange(0, 41)])
+    ls = rng.choice([0, 0, 1, 2, 3, 4, 5, 7, 8, rng.randrange(0, 41), rng.randrange(0, 41), rng.randrange(250, 600)])
     if giant == "seq":
         ls = rng.choice([255, 256, 257, 65535, 65536, 65537, 70001])
     seq = "".join(rng.choice(SEQ) for _ in range(ls))
     qual = [rng.choice([0, 93, rng.randrange(94)]) for _ in range(ls)]
-    tags = [rng.randrange(256) for _ in range(rng.choice([0, 0, 1, 3, 4, 12]))]
+    tags = [rng.randrange(256) for _ in range(rng.choice([0, 0, 1, 3, 4, 12]))] if rng.random() < 0.5 else rand_tags(rng)
     flag = rng.choice([0, 4, 16, 20, 0x10 | 0x1, 0xffef, 0xffff, rng.randrange(1 << 16)])
     i32 = lambda: rng.choice([-1, 0, rng.randrange(-(1 << 31), 1 << 31)])
     return {"ref": ref, "pos": pos, "mapq": rng.choice([0, 255, rng.randrange(256)]), "bin": rng.randrange(1 << 16), "flag": flag,
@@ -427,10 +459,11 @@ def rand_rec(rng, nref, giant=None):
 
 
 def rand_file(rng, nrec=None, giant=None, small=False):
-    nref = rng.choice([0, 1, 2, 3, 4])
-    refs = [[rng.choice(["chr", "c", "scaffold_", "X"]) + str(i + 1) + rng.choice(["", "_alt", ".1"]), rng.choice([1, 1000, (1 << 31) - 1, rng.randrange(1, 1 << 31)])]
+    nref = rng.choice([0, 1, 2, 3, 4, 4, 30, 300])
+    refs = [[rng.choice(["chr", "c", "scaffold_", "X", "HLA-A*01:01:01:0", "k" * 120 + "_"]) + str(i + 1) + rng.choice(["", "_alt", ".1"]),
+             rng.choice([1, 1000, (1 << 31) - 1, rng.randrange(1, 1 << 31)])]
             for i in range(nref)]
-    text = [rng.choice([64, 72, 68, 9, 10, 0, 255, rng.randrange(256)]) for _ in range(rng.choice([0, 0, 5, 17, 40]))]
+    text = [rng.choice([64, 72, 68, 9, 10, 0, 255, rng.randrange(256)]) for _ in range(rng.choice([0, 0, 5, 17, 40, 300, 70000 if rng.random() < 0.05 else 1]))]
     if nrec is None:
         nrec = rng.choice([0, 1, 2, 2, 3, 4, 5, 8])
     recs = []
@@ -480,6 +513,28 @@ def cases(tier, rng):
         g = dict(base, cigar=[["M", 1], ["I", 1]] * (n // 2) + [["D", 1]] * (n % 2))
         yield {"op": "decode", "refs": two, "text": [], "recs": [g, rv], "blk": 65280, "eof": True}
     yield {"op": "interval", "refs": two, "text": [], "recs": [dict(base, cigar=[["M", 1], ["I", 1]] * 8192), rv], "blk": 65280, "eof": True}
+    # extremes of every variable-length part in one file: empty seq / no cigar / name lengths 1 and 254 / 65535 ops
+    ex = [dict(base, name="a", cigar=[], seq="", qual=[], tags=[]),
+          dict(base, name="n" * 254, cigar=[["M", 1]], seq="A", qual=[0]),
+          dict(unm, name="z" * 254, seq="AC", qual=[93, 93], tags=rand_tags(rng)),
+          dict(base, name="g", cigar=[[OPS[i % 9], 1 + i % 7] for i in range(65535)], seq="ACG", qual=[1, 2, 3], tags=rand_tags(rng)),
+          dict(rv, tags=list(b"XZZ\0") + list(b"YBBC") + [0, 0, 0, 0] + list(b"NMi") + [0, 0, 0, 0])]
+    for op in ("decode", "interval"):
+        yield {"op": op, "refs": two, "text": [0, 10, 0], "recs": ex, "blk": 65280, "eof": True}
+    yield {"op": "write", "refs": two, "text": [], "recs": ex, "blk": 65280, "eof": True, "mode": "index", "idx": [4, 0, 3, 1]}
+    # two record sizes differing by one, chunk sizes around them
+    for _ in range(30 * f):
+        c = rand_file(rng, nrec=0)
+        a = rand_rec(rng, len(c["refs"]))
+        if len(a["name"]) >= 254:
+            a["name"] = a["name"][:100]
+        b = dict(rand_rec(rng, len(c["refs"])), name=a["name"] + "x", cigar=a["cigar"], seq=a["seq"], qual=a["qual"], tags=a["tags"])
+        s = len(encode_record(a))
+        assert len(encode_record(b)) == s + 1
+        c["recs"] = rng.choice([[a, b], [b, a], [b, a, b], [a, b, a], [a, a, b, b]])
+        for k in sorted({s + 1, s + 2, 2 * s, 2 * s + 1, 2 * s + 2, 2 * s + 3, 3 * s + 1, 3 * s + 2}):
+            yield dict(c, op="chunked", k=k)
+        yield dict(c, op="write", mode="chunks", idx=[], k=rng.choice([s + 1, s + 2, 2 * s + 1]))
     # random files
     for _ in range(500 * f):
         yield dict(rand_file(rng), op="decode")
